@@ -411,6 +411,11 @@ func main() {
 		overlay[f] = out
 		total += in.inserted
 	}
+	// the race-detector pass links the uninstrumented packages: its overlay only supplies the shim
+	bm, _ := json.MarshalIndent(map[string]interface{}{"Replace": map[string]string{filepath.Join(repo, "zzverif", "verifsync", "verifsync.go"): shim}}, "", " ")
+	if err := os.WriteFile(filepath.Join(outdir, "overlay-min.json"), bm, 0o644); err != nil {
+		panic(err)
+	}
 	b, _ := json.MarshalIndent(map[string]interface{}{"Replace": overlay}, "", " ")
 	if err := os.WriteFile(filepath.Join(outdir, "overlay.json"), b, 0o644); err != nil {
 		die("%v", err)
